@@ -277,7 +277,7 @@ def run_inner(pid, tier, seed):
                            "(trace validation); model-checking numbers of the design model are reported under 'mc' when present",
         }
         assumptions_extra = []
-        if pid in ("C03", "C06", "C07"):
+        if pid in ("C03", "C06", "C07", "C08"):
             # the restart clauses of C03/C06/C07 (a restart must not lose a dependency on an unfinished task, must not reuse an
             # instance id, must keep the crash counts) are decided on restores of real journals
             import journal_engine
